@@ -186,8 +186,13 @@ def stalled_replicas(res, binary, quick):
                 what, healthy[0], len(hgot), total + 3), replay)
         elif hgot != list(range(1, total + 4)):
             missing = [m for m in range(1, total + 4) if m not in hgot]
-            res.violation("%s: replica %s stayed connected and healthy but received %d of %d transactions (missing e.g. %s; in order: %s)" % (
-                what, healthy[0], len(hgot), total + 3, missing[:5], hgot == sorted(hgot)), replay)
+            if not missing and len(hgot) == total + 3:
+                k = next(i for i in range(len(hgot) - 1) if hgot[i] > hgot[i + 1])
+                res.violation("%s: replica %s received every transaction but NOT in commit order (e.g. %s at positions %d.. of its stream)" % (
+                    what, healthy[0], hgot[max(0, k - 1):k + 3], max(0, k - 1)), replay)
+            else:
+                res.violation("%s: replica %s stayed connected and healthy but received %d of %d transactions (missing e.g. %s; in order: %s)" % (
+                    what, healthy[0], len(hgot), total + 3, missing[:5], hgot == sorted(hgot)), replay)
         elif variant == "resumes" and final.get(victim, []) != list(range(1, total + 4)):
             vg = final.get(victim, [])
             res.violation("%s: the resumed replica received %d of %d transactions (in order: %s)" % (what, len(vg), total + 3, vg == sorted(vg)), replay)
